@@ -118,6 +118,7 @@ type c17world struct {
 	raws      []*c17raw
 	rawMu     sync.Mutex
 	rawByAddr map[string]*c17raw
+	stopped   bool // Router.Stop was called (op astop)
 }
 
 func (w *c17world) keyOf(k int) *key.Pair {
@@ -578,6 +579,11 @@ func c17exec(c *h.Ctx, cs *h.Case) {
 				}
 				tags["dial"] = true
 			}
+		case len(tk) == 2 && tk[1] == "astop":
+			if o, ok := w.accStop(); ok {
+				obs = o
+				tags["astop"] = true
+			}
 		case len(tk) >= 3 && strings.HasPrefix(tk[1], "a"):
 			if o, ok := w.accOp(tk); ok {
 				obs = o
@@ -720,6 +726,24 @@ func c17gen(c *h.Ctx, yield func(*h.Case)) {
 			"c17 areident 0 9", "c17 amsg 0 2",
 			"c17 areident 0 2", "c17 amsg 0 3",
 			"c17 set r01 2", "c17 areident 0 1:2", "c17 amsg 0 4")
+		// Router.Stop while one goroutine stands before the test's consequence (registration), one before its launch,
+		// one connection is served and one has not said who it is: nothing is dispatched afterwards
+		stopOps := []string{
+			"c17 open " + tr,
+			"c17 set r01 1,2",
+			"c17 aconn 0", "c17 aident 0 1", "c17 areg 0", "c17 alaunch 0", "c17 amsg 0 1", // served
+			"c17 aconn 1", "c17 aident 1 2", "c17 areg 1", "c17 amsg 1 2", // before its launch, a message waiting
+			"c17 aconn 2", "c17 aident 2 1", "c17 amsg 2 3", // before its registration
+			"c17 aconn 3", "c17 aident 3 2", "c17 agone 3"} // before its registration, the peer gone
+		if tr == "local" {
+			stopOps = append(stopOps, "c17 aconn 4") // silent so far (over TCP it might still wait in the backlog)
+		}
+		stopOps = append(stopOps, "c17 astop",
+			"c17 amsg 0 4", "c17 alaunch 1", "c17 areg 2", "c17 amsg 2 5", "c17 areg 3", "c17 set r01 1,2,3")
+		if tr == "local" {
+			stopOps = append(stopOps, "c17 aident 4 3", "c17 amsg 4 6", "c17 areg 4")
+		}
+		emit("corpus-accept-stop-in-between", append(stopOps, "c17 get r01")...)
 		emit("corpus-accept-before-any-set",
 			"c17 open "+tr,
 			"c17 aconn 0", "c17 aconn 1",
@@ -729,7 +753,7 @@ func c17gen(c *h.Ctx, yield func(*h.Case)) {
 			"c17 areg 0", "c17 alaunch 0", "c17 amsg 0 1", "c17 amsg 1 2",
 			"c17 agone 0", "c17 aconn 2", "c17 agone 2", "c17 aconn 3", "c17 aident 3 1", "c17 agone 3", "c17 areg 3", "c17 alaunch 3")
 	}
-	for i := 0; i < c.Pick(260, 6000); i++ {
+	for i := 0; i < b7Pick(c, 260, 6000) && !b7SearchOver(); i++ {
 		tr := "local"
 		if r.Intn(2) == 0 {
 			tr = "tcp"
@@ -758,6 +782,7 @@ func c17gen(c *h.Ctx, yield func(*h.Case)) {
 		}
 		var heldSet string
 		var heldMembers map[int]bool
+		stopped := false
 		randSet := func(extra int) (string, map[int]bool) {
 			var ps []string
 			m := map[int]bool{}
@@ -803,8 +828,33 @@ func c17gen(c *h.Ctx, yield func(*h.Case)) {
 				ops = append(ops, "c17 release")
 				tab[heldSet], tabInit = heldMembers, true
 				heldSet = ""
+			case !stopped && j >= 5 && r.Intn(9) == 0:
+				// Router.Stop with the goroutines wherever they stand: the receive loops end
+				if tr == "tcp" {
+					// a TCP connection that has written nothing may still wait in the listener's backlog, and closing
+					// the listener resets it: before the stop every connection says who it is (the answer shows that
+					// the server's goroutine for it runs)
+					for n, rc := range raws {
+						if rc.phase == "wait" && rc.open {
+							k := 1 + r.Intn(np+1)
+							ops = append(ops, fmt.Sprintf("c17 aident %d %d", n, k))
+							if valid(k) {
+								rc.phase = "checked"
+							} else {
+								rc.phase = "closed"
+							}
+						}
+					}
+				}
+				ops = append(ops, "c17 astop")
+				stopped = true
+				for _, rc := range raws {
+					if rc.phase == "running" {
+						rc.phase = "closed"
+					}
+				}
 			case x < 7 || len(live) == 0:
-				if len(raws) < 6 {
+				if len(raws) < 6 && !stopped {
 					ops = append(ops, fmt.Sprintf("c17 aconn %d", len(raws)))
 					raws = append(raws, &rawc{phase: "wait", open: true})
 				}
@@ -836,10 +886,13 @@ func c17gen(c *h.Ctx, yield func(*h.Case)) {
 				case rc.phase == "checked" && r.Intn(2) == 0:
 					ops = append(ops, fmt.Sprintf("c17 areg %d", n))
 					rc.phase = "registered"
+					if stopped {
+						rc.phase = "closed"
+					}
 				case rc.phase == "registered" && r.Intn(2) == 0:
 					ops = append(ops, fmt.Sprintf("c17 alaunch %d", n))
 					rc.phase, rc.queued = "running", 0
-					if !rc.open {
+					if !rc.open || stopped {
 						rc.phase = "closed"
 					}
 				case rc.phase == "running" && rc.open && r.Intn(5) == 0:
@@ -860,11 +913,14 @@ func c17gen(c *h.Ctx, yield func(*h.Case)) {
 			if rc.phase == "checked" {
 				ops = append(ops, fmt.Sprintf("c17 areg %d", n))
 				rc.phase = "registered"
+				if stopped {
+					rc.phase = "closed"
+				}
 			}
 			if rc.phase == "registered" {
 				ops = append(ops, fmt.Sprintf("c17 alaunch %d", n))
 				rc.phase = "running"
-				if !rc.open {
+				if !rc.open || stopped {
 					rc.phase = "closed"
 				}
 			}
@@ -876,8 +932,8 @@ func c17gen(c *h.Ctx, yield func(*h.Case)) {
 		emit("accept-"+tr, ops...)
 	}
 	// ---- random histories over 3..5 set ids (router-level and context-level), 4..7 peers
-	n := c.Pick(1200, 20000)
-	for i := 0; i < n; i++ {
+	n := b7Pick(c, 1200, 20000)
+	for i := 0; i < n && !b7SearchOver(); i++ {
 		tr := "local"
 		if r.Intn(2) == 0 {
 			tr = "tcp"
@@ -960,7 +1016,7 @@ func c17gen(c *h.Ctx, yield func(*h.Case)) {
 	}
 	// ---- histories with a SetValidPeers call held in the middle (first call or a replacement),
 	// offers and reads in between
-	for i := 0; i < c.Pick(60, 1200); i++ {
+	for i := 0; i < b7Pick(c, 60, 1200) && !b7SearchOver(); i++ {
 		tr := "local"
 		if r.Intn(2) == 0 {
 			tr = "tcp"
